@@ -271,4 +271,12 @@ def c01_meta_unset(x=0):
     r._generated = None
     return _compare([r])
 
-CALLS = {"c01_meta_unset": c01_meta_unset, "c01_refused_between": c01_refused_between, "c01_ignore_scope": c01_ignore_scope, "c01_value": c01_value, "c01_obs": c01_obs, "c01_keyword": c01_keyword, "c01_meta": c01_meta, "c01_sequence": c01_sequence, "c01_nested": c01_nested, "c01_grouped": c01_grouped, "c01_sweep": c01_sweep, "c01_alias": c01_alias, "c01_same_instant": c01_same_instant}
+
+def c01_grouped_same_name(x=0, s="", y=0):
+    from flow.record import GroupedRecord, RecordDescriptor
+
+    A = RecordDescriptor("c01/a", [("varint", "n")])
+    A2 = RecordDescriptor("c01/a", [("string", "s"), ("varint", "n")])
+    return _compare([A(n=x), GroupedRecord("c01/grp", [A2(s=s, n=y), A(n=3)]), A2(s="after", n=4)])
+
+CALLS = {"c01_grouped_same_name": c01_grouped_same_name, "c01_meta_unset": c01_meta_unset, "c01_refused_between": c01_refused_between, "c01_ignore_scope": c01_ignore_scope, "c01_value": c01_value, "c01_obs": c01_obs, "c01_keyword": c01_keyword, "c01_meta": c01_meta, "c01_sequence": c01_sequence, "c01_nested": c01_nested, "c01_grouped": c01_grouped, "c01_sweep": c01_sweep, "c01_alias": c01_alias, "c01_same_instant": c01_same_instant}
